@@ -707,6 +707,12 @@ def gen_lists(rng, cx=False):
             yield case(name, [tuple(lst)], kw, argnum=0, form="listfun", tags=["tuple_arg"])
             lst = [R(s) for s in shapes]
             yield case(name, [lst], kw, argnum=0, form="listfun", tags=["all_traced"], alltraced=True)
+    # the same array object in several slots of one list (x, x) / (x, c, x) / (c, x, x)
+    for (name, shp, kw) in (("concatenate", (2, 3), {}), ("concatenate", (2, 3), {"axis": 1}), ("concatenate", (3,), {}), ("stack", (2, 3), {}), ("stack", (3,), {"axis": -1}), ("vstack", (3,), {}), ("vstack", (2, 3), {}),
+                            ("hstack", (3,), {}), ("hstack", (2, 3), {}), ("column_stack", (3,), {}), ("array", (2,), {}), ("array", (), {}), ("row_stack", (3,), {})):
+        for pat in ((0, 1), (0, 2), (1, 2), (0, 1, 2)):
+            lst = [R(shp) for _ in range(3 if max(pat) == 2 else 2)]
+            yield case(name, [lst], kw, argnum=pat[0], form="listfun", dup_paths=[[p_] for p_ in pat], tags=["same_object_twice"])
     # scalars inside lists (python floats)
     for name in ("array", "stack", "hstack", "concatenate_0d"):
         if name == "concatenate_0d":
